@@ -1,6 +1,8 @@
 package mon
 
 import (
+	"net"
+	"bufio"
 	"bytes"
 	"errors"
 	"fmt"
@@ -91,6 +93,15 @@ func (r *Rec) Write(b []byte) (int, error) {
 }
 
 func (r *Rec) Flush() { r.Calls = append(r.Calls, Call{Kind: "F"}) }
+
+// Hijack makes the recorder usable by handlers that take over the connection (websocket
+// style). The connection handed out is one end of an in-memory pipe.
+func (r *Rec) Hijack() (net.Conn, *bufio.ReadWriter, error) {
+	r.Ev("connection-hijacked")
+	a, b := net.Pipe()
+	_ = b.Close()
+	return a, bufio.NewReadWriter(bufio.NewReader(a), bufio.NewWriter(a)), nil
+}
 
 func (r *Rec) Ev(format string, args ...any) {
 	r.Events = append(r.Events, fmt.Sprintf(format, args...))
